@@ -173,6 +173,14 @@ func getName(nodeSet NodeSet, ok bool, nameType nameType) (Result, error) {
 
 	firstNode := nodeSet[0]
 
+	// The first node in document order; node-sets produced by reverse axes
+	// are stored in reverse document order.
+	for _, i := range nodeSet[1:] {
+		if i.Pos() < firstNode.Pos() {
+			firstNode = i
+		}
+	}
+
 	if n, ok := firstNode.Node().(node.NamedNode); ok {
 		if nameType == localOnly || (nameType == localAndNamespace && n.Space() == "") {
 			return String(n.Local()), nil
